@@ -34,6 +34,7 @@ type Clause struct {
 	GoName string   // generated clause function
 	Params []ClauseParam
 	HasOld bool
+	DefGoName string // lemma `requires def.v: v == e`: function computing e
 	CallType string
 	modParsed []*modSpec
 }
